@@ -19,6 +19,8 @@ def main():
     if a.cmd == 'check':
         seed = int(os.environ.get('VERIF_SEED', '0') or 0)
         tier = a.tier if a.tier in ('quick', 'thorough') else 'quick'
+        if tier == 'thorough':
+            os.environ['VERIF_CROSSCHECK'] = '1'
         rep = Report(a.prop, tier, seed,
                      checker_cmd='./vf check %s --tier %s' % (a.prop, tier))
         try:
